@@ -87,12 +87,14 @@ Definition print_op (o : cmpop) : bytes :=
   | OpEq => [61] | OpNeq => [33; 61] | OpGt => [62] | OpGte => [62; 61] | OpLt => [60] | OpLte => [60; 61]
   end.
 
-Fixpoint print_vals (vs : list jval) : bytes :=
-  match vs with
+(** comma-separated list *)
+Definition sep_print {A} (pr : A -> bytes) (l : list A) : bytes :=
+  match l with
   | [] => []
-  | [v] => print_val v
-  | v :: r => print_val v ++ 44 :: 32 :: print_vals r
+  | x :: r => pr x ++ flat_map (fun y => 44 :: 32 :: pr y) r
   end.
+
+Definition print_vals (vs : list jval) : bytes := sep_print print_val vs.
 
 (** [lvl]: 0 = or_expr position, 1 = and_expr position, 2 = factor position.  Parentheses
     are printed only where the grammar needs them. *)
@@ -115,12 +117,7 @@ Definition print_expr (e : expr) : bytes := print_expr_at 0 e.
 
 Definition quoted (s : bytes) : bytes := 34 :: s ++ [34].
 
-Fixpoint print_list (pr : bytes -> bytes) (l : list bytes) : bytes :=
-  match l with
-  | [] => []
-  | [x] => pr x
-  | x :: r => pr x ++ 44 :: 32 :: print_list pr r
-  end.
+Definition print_list (pr : bytes -> bytes) (l : list bytes) : bytes := sep_print pr l.
 
 Definition print_agg (a : agg) : bytes :=
   match a with
@@ -133,12 +130,7 @@ Definition print_agg (a : agg) : bytes :=
   | AMax f => sp K_MAX ++ 32 :: f
   end.
 
-Fixpoint print_aggs (l : list agg) : bytes :=
-  match l with
-  | [] => []
-  | [x] => print_agg x
-  | x :: r => print_agg x ++ 44 :: 32 :: print_aggs r
-  end.
+Definition print_aggs (l : list agg) : bytes := sep_print print_agg l.
 
 Definition gran_kw (g : gran) : bytes :=
   match g with GHour => K_HOUR | GDay => K_DAY | GWeek => K_WEEK | GMonth => K_MONTH | GYear => K_YEAR end.
